@@ -2,6 +2,7 @@ package design
 
 import (
 	"fmt"
+	"regexp"
 	"strings"
 
 	"verifharness/internal/lp"
@@ -95,8 +96,14 @@ func Generate(r *lp.Rng, o Opts) *Design {
 		free := true
 		for _, s := range g.d.Services {
 			for _, m := range s.Methods {
-				if m != m0 && m.HTTP != nil && s.Path+m.HTTP.Path == g.d.Services[len(g.d.Services)-1].Path+m0.HTTP.Path && m.HTTP.Verb == alt {
+				if m != m0 && m.HTTP != nil && m.HTTP.Verb == alt &&
+					wildcardName.ReplaceAllString(s.Path+m.HTTP.Path, "{}") == wildcardName.ReplaceAllString(g.d.Services[len(g.d.Services)-1].Path+m0.HTTP.Path, "{}") {
 					free = false
+				}
+				for _, vr := range m.HTTP.MoreRoutes {
+					if len(vr) == 2 && vr[0] == alt && wildcardName.ReplaceAllString(s.Path+vr[1], "{}") == wildcardName.ReplaceAllString(g.d.Services[len(g.d.Services)-1].Path+m0.HTTP.Path, "{}") {
+						free = false
+					}
 				}
 			}
 		}
@@ -460,13 +467,33 @@ func (g *gen) sharedTemplate() {
 	if m0.HTTP.Verb == "DELETE" {
 		verb = "GET"
 	}
-	for _, m := range s.Methods {
-		if m.HTTP.Path == m0.HTTP.Path && m.HTTP.Verb == verb {
-			return
-		}
+	// no other route of the design may have the same verb and the same template shape (wildcard names aside):
+	// services without a path prefix share one route space
+	shape := func(prefix, p string) string {
+		return wildcardName.ReplaceAllString(prefix+p, "{}")
 	}
-	if g.routes[verb+" "+m0.HTTP.Path] {
-		return
+	want := shape(s.Path, m0.HTTP.Path)
+	for _, os := range g.d.Services {
+		for _, m := range os.Methods {
+			if m.HTTP == nil || m.HTTP.Verb != verb {
+				continue
+			}
+			for _, p := range append([]string{m.HTTP.Path}, m.HTTP.MorePaths...) {
+				if shape(os.Path, p) == want {
+					return
+				}
+			}
+		}
+		for _, m := range os.Methods {
+			if m.HTTP == nil {
+				continue
+			}
+			for _, vr := range m.HTTP.MoreRoutes {
+				if len(vr) == 2 && vr[0] == verb && shape(os.Path, vr[1]) == want {
+					return
+				}
+			}
+		}
 	}
 	alt := &Method{Name: m0.Name + "_alt", HTTP: &HTTPMap{Verb: verb, Path: m0.HTTP.Path}, NoSecurity: g.o.Security}
 	payload := &Att{Type: &Type{IsObject: true}}
@@ -611,6 +638,8 @@ func (g *gen) requirement() Req {
 }
 
 var verbs = []string{"GET", "POST", "PUT", "DELETE", "PATCH"}
+
+var wildcardName = regexp.MustCompile(`\{\*?\w+\}`)
 
 // method builds a method whose payload attributes are spread over the HTTP locations.
 func (g *gen) method(s *Service, name string, cell int) {
